@@ -1,7 +1,11 @@
 """C02 - swarm membership and counts follow the announce history."""
 from hist_common import HIST_REASONS, HIST_TAGS, HIST_ASSUMPTIONS, HIST_RULE
+from e2e_common import e2e_part
 
 PROP = {
+    # the rules are about what the CLIENT receives: the end-to-end histories (incl. one with swarms of ~100 IPv6 and ~260 IPv4
+    # members and numwant up to 400) check that exactly the selected peers reach the wire through both frontends
+    "parts": [e2e_part("chkE02", 12, 300)],
     "glue": "GH", "chk": "chk02", "explain": "explainH",
     "gotags": ["shim_memory", "shim_redis", "shim_timecache"],
     "n": {"quick": 120, "thorough": 1500},
